@@ -234,11 +234,21 @@ Section BtreeRefines.
       destruct (deleg_has (bv_deleg v1) k); [inversion Eg; subst; auto|]. inversion Eg; subst.
       destruct (update_glue_content (mkBver (bv_nodes v1) (deleg_add (bv_deleg v1) k) (bv_changed v1)) k true S1) as (A & B & C).
       split; [exact A|split; [exact B|apply C; exact Hne]]. }
-    cbn [res_rel]. split; [apply bsorted_set; exact S2|]. split.
-    - intros k'. cbn [bv_nodes v_nodes]. unfold bcontent. rewrite bmap_get_set, map_get_set, Hzget.
+    assert (forall f, forall k', bcontent (bmap_set (bv_nodes v2) k (mkBn f (node_replace (bn_rds nd) r))) k' =
+                                map_get (map_set (v_nodes z1) k (node_replace znd r)) k') as CS.
+    { intros f k'. unfold bcontent. rewrite bmap_get_set, map_get_set, Hzget.
       destruct (name_eqb k k') eqn:E; [cbn [bn_rds]; rewrite Hnd; reflexivity|].
-      fold (bcontent (bv_nodes v2) k'). rewrite C2, Hget, E. apply Hc.
-    - cbn [bv_changed v_changed]. split; intros H; [contradiction|]. exfalso. apply Hzne. exact H.
+      fold (bcontent (bv_nodes v2) k'). rewrite C2, Hget, E. apply Hc. }
+    destruct (negb _ && _).
+    - (* a CNAME evicted the NS rdataset: the delegation is dropped, content untouched *)
+      match goal with |- context [b_update_glue ?V k false] =>
+        destruct (update_glue_content V k false) as (A & B & C0); [cbn [bv_nodes]; apply bsorted_set; exact S2|] end.
+      cbn [res_rel]. split; [exact B|]. split.
+      + intros k'. rewrite A. cbn [bv_nodes v_nodes]. apply CS.
+      + split; intros H; [|exfalso; apply Hzne; exact H]. exfalso. revert H. apply C0. exact N2.
+    - cbn [res_rel]. split; [apply bsorted_set; exact S2|]. split.
+      + intros k'. cbn [bv_nodes v_nodes]. apply CS.
+      + cbn [bv_changed v_changed]. split; intros H; [contradiction|]. exfalso. apply Hzne. exact H.
   Qed.
 
   Lemma b_del_rds_sim bv zv n ty cov : RB bv zv -> res_rel RB (b_delete_rdataset c bv n ty cov) (delete_rdataset c zv n ty cov).
